@@ -173,3 +173,21 @@ def program(kind, names, ops, tail_rnd):
         add('DBSIZE'); add('EXISTS', *names); add('MGET', *names)
         add('SET', names[0], 'again'); add('DBSIZE')
     return steps
+
+
+def scan_schedules(edges, rnd, per_label=2):
+    """SCAN-family histories in which an iteration is in progress while the table is resized: for every grow /
+    shrink edge of the Dict graph a shortest store / remove path to it, with p single-bucket SCAN calls inserted
+    shortly before the resizing operation (the harness finishes the iteration afterwards)."""
+    targets, _, _ = plan(edges, rnd, per_label)
+    out = []
+    for t in targets:
+        if not (t['label'].startswith('shrink') or t['label'].startswith('grow')):
+            continue
+        ops = [{'op': 'add' if o == 'S' else 'del', 'e': n} for o, n in t['ops']]
+        for p in (1, 2, 3, 4):
+            for back in (0, 3):
+                j = max(1, len(ops) - 1 - back)
+                prog = ops[:j] + [{'op': 'step', 'count': 1}] * p + ops[j:]
+                out.append({'label': t['label'], 'pause_after_calls': p, 'prog': prog})
+    return out
